@@ -26,10 +26,61 @@ mod tdigest;
 pub type Ob = Vec<i128>;
 pub const PANIC: i128 = -999;
 pub const ERR: i128 = -998;
+/// observation of a parse op whose peak allocation was out of proportion to the input
+pub const ALLOC: i128 = -997;
 
 pub trait Family {
     fn new(cfg: &[i128]) -> Self;
     fn step(&mut self, code: i64, a: &[i128]) -> Ob;
+    /// number of input bytes when `code` parses untrusted bytes (its allocation is then
+    /// checked against `64 * len + 1 MiB`), None otherwise
+    fn parse_len(&self, _code: i64, _a: &[i128]) -> Option<usize> {
+        None
+    }
+}
+
+// ---- counting allocator: bytes currently allocated and the peak since the last reset ----
+use std::alloc::{GlobalAlloc, Layout, System};
+use std::sync::atomic::{AtomicUsize, Ordering};
+struct Counting;
+static CUR: AtomicUsize = AtomicUsize::new(0);
+static PEAK: AtomicUsize = AtomicUsize::new(0);
+unsafe impl GlobalAlloc for Counting {
+    unsafe fn alloc(&self, l: Layout) -> *mut u8 {
+        let c = CUR.fetch_add(l.size(), Ordering::Relaxed) + l.size();
+        PEAK.fetch_max(c, Ordering::Relaxed);
+        unsafe { System.alloc(l) }
+    }
+    unsafe fn dealloc(&self, p: *mut u8, l: Layout) {
+        CUR.fetch_sub(l.size(), Ordering::Relaxed);
+        unsafe { System.dealloc(p, l) }
+    }
+    unsafe fn alloc_zeroed(&self, l: Layout) -> *mut u8 {
+        let c = CUR.fetch_add(l.size(), Ordering::Relaxed) + l.size();
+        PEAK.fetch_max(c, Ordering::Relaxed);
+        unsafe { System.alloc_zeroed(l) }
+    }
+    unsafe fn realloc(&self, p: *mut u8, l: Layout, n: usize) -> *mut u8 {
+        if n >= l.size() {
+            let c = CUR.fetch_add(n - l.size(), Ordering::Relaxed) + (n - l.size());
+            PEAK.fetch_max(c, Ordering::Relaxed);
+        } else {
+            CUR.fetch_sub(l.size() - n, Ordering::Relaxed);
+        }
+        unsafe { System.realloc(p, l, n) }
+    }
+}
+#[global_allocator]
+static GLOBAL: Counting = Counting;
+/// start a measurement: returns the baseline
+pub fn alloc_mark() -> usize {
+    let c = CUR.load(Ordering::Relaxed);
+    PEAK.store(c, Ordering::Relaxed);
+    c
+}
+/// peak bytes allocated above the baseline since `alloc_mark`
+pub fn alloc_peak_since(base: usize) -> usize {
+    PEAK.load(Ordering::Relaxed).saturating_sub(base)
 }
 
 static LAST_PANIC: Mutex<String> = Mutex::new(String::new());
@@ -66,7 +117,18 @@ fn run_family<F: Family>(input: &str, output: &str) {
             let code: i64 = head.parse().unwrap();
             let a: Vec<i128> = it.map(|t| t.parse().unwrap()).collect();
             let fm = fam.as_mut().unwrap();
-            match catch_unwind(AssertUnwindSafe(|| fm.step(code, &a))) {
+            let plen = fm.parse_len(code, &a);
+            let base = alloc_mark();
+            let res = catch_unwind(AssertUnwindSafe(|| fm.step(code, &a)));
+            let peak = alloc_peak_since(base);
+            let res = match (res, plen) {
+                (Ok(_), Some(n)) if peak > 64 * n + (1 << 20) => {
+                    writeln!(out, "# alloc peak={peak} input_len={n}").unwrap();
+                    Ok(vec![ALLOC])
+                }
+                (r, _) => r,
+            };
+            match res {
                 Ok(ob) => {
                     let mut s = String::with_capacity(2 + ob.len() * 4);
                     s.push('o');
